@@ -520,7 +520,9 @@ func checkOne(c *run.Ctx, in Input) {
 	if in.B.Go != "" {
 		c.Feature("go-kind:" + in.B.Go)
 	}
-	small := func(v Val) bool { return v.K == "num" && math.Abs(float64(v.F)) < 256 && float64(v.F) == math.Trunc(float64(v.F)) }
+	small := func(v Val) bool {
+		return v.K == "num" && math.Abs(float64(v.F)) < 256 && float64(v.F) == math.Trunc(float64(v.F))
+	}
 	if !(small(in.A) && small(in.B)) {
 		b, _ := json.Marshal(in)
 		c.Nontrivial(ca + "|" + cb + "|" + string(b))
